@@ -216,7 +216,38 @@ def run_cvc5(smt2, budget_s=None):
         os.unlink(path)
 
 
+GEN_TIMEOUT_S = int(os.environ.get("PYVC_GEN_TIMEOUT_S", "120"))
+
+
+class GenerationTimeout(Exception):
+    pass
+
+
+def _gen_alarm(signum, frame):
+    raise GenerationTimeout()
+
+
 def safe_generate(args):
+    contract_name, mode_name, repo, module = args
+    import signal
+    try:
+        signal.signal(signal.SIGALRM, _gen_alarm)
+        signal.alarm(GEN_TIMEOUT_S)
+    except Exception:
+        pass
+    try:
+        return _safe_generate(args)
+    except GenerationTimeout:
+        # path explosion / a loop of the symbolic execution on code the sidecar does not fit: undecided, never a hang
+        return {"contract": contract_name, "mode": mode_name, "error": "unsupported: VC generation exceeded %d s" % GEN_TIMEOUT_S, "kind": "unsupported"}
+    finally:
+        try:
+            signal.alarm(0)
+        except Exception:
+            pass
+
+
+def _safe_generate(args):
     contract_name, mode_name, repo, module = args
     try:
         import importlib
@@ -228,6 +259,8 @@ def safe_generate(args):
         return {"contract": contract_name, "mode": mode_name, "error": "unsupported: %s" % e, "kind": "unsupported"}
     except extract.ExtractError as e:
         return {"contract": contract_name, "mode": mode_name, "error": "extract: %s" % e, "kind": "extract"}
+    except GenerationTimeout:
+        raise
     except Exception:
         return {"contract": contract_name, "mode": mode_name, "error": traceback.format_exc(), "kind": "crash"}
 
